@@ -97,8 +97,9 @@ pub struct ObsData {
     pub amend_target: BTreeMap<(usize, usize), (u64, IdS, u64)>,
     /// what this amend has contributed to `vis_bound` so far
     pub amend_added: BTreeMap<(usize, usize), u128>,
-    /// pre-state seen at a map step of the amend on its target, keyed by step number
-    pub amend_old: BTreeMap<(usize, usize, u64), Option<OrderSpec>>,
+    /// pre-states seen at the successive lookup / removal steps of an amend on its target
+    /// (`None` = the map could not be read then)
+    pub amend_old: BTreeMap<(usize, usize), Vec<Option<Option<OrderSpec>>>>,
 }
 
 impl Observer for Obs {
@@ -110,6 +111,7 @@ impl Observer for Obs {
         site: Site,
         key: u64,
         guard_held: bool,
+        guards_anywhere: bool,
     ) {
         let mut d = self.shared.lock().unwrap();
         // an amend supplies max(0, new quantity - displayed quantity of the order it finds):
@@ -117,19 +119,30 @@ impl Observer for Obs {
         if !guard_held && matches!(site, Site::MapRemove | Site::MapGet) {
             if let Some((fp, id, q)) = d.amend_target.get(&(tid, op)).cloned() {
                 if fp == key {
-                    let l = read_listing(&self.level);
-                    let cur = l.into_iter().find(|o| o.id == id);
-                    if let Some(c) = &cur {
-                        if matches!(c.kind, Kind::Standard | Kind::PostOnly | Kind::Iceberg) {
-                            let inc = (q as u128).saturating_sub(c.vis as u128);
-                            let prev = d.amend_added.get(&(tid, op)).cloned().unwrap_or(0);
-                            if inc > prev {
-                                d.vis_bound += inc - prev;
-                                d.amend_added.insert((tid, op), inc);
+                    let prev = d.amend_added.get(&(tid, op)).cloned().unwrap_or(0);
+                    if guards_anywhere {
+                        // another thread is parked inside a map guard: the map cannot be read
+                        // now, so the amend is credited with its whole new quantity (sound, loose)
+                        let inc = q as u128;
+                        if inc > prev {
+                            d.vis_bound += inc - prev;
+                            d.amend_added.insert((tid, op), inc);
+                        }
+                        d.amend_old.entry((tid, op)).or_default().push(None);
+                    } else {
+                        let cur = muted(|| self.level.verif_find(id.to_lib()))
+                            .map(|a| OrderSpec::of(&a));
+                        if let Some(c) = &cur {
+                            if matches!(c.kind, Kind::Standard | Kind::PostOnly | Kind::Iceberg) {
+                                let inc = (q as u128).saturating_sub(c.vis as u128);
+                                if inc > prev {
+                                    d.vis_bound += inc - prev;
+                                    d.amend_added.insert((tid, op), inc);
+                                }
                             }
                         }
+                        d.amend_old.entry((tid, op)).or_default().push(Some(cur));
                     }
-                    d.amend_old.insert((tid, op, step_no), cur);
                 }
             }
         }
@@ -374,7 +387,7 @@ pub fn run_program(p: &Program) -> TOutcome {
         );
         return out;
     }
-    let (trace, schedule, steps, switches, aborted) = {
+    let (trace, schedule, steps, switches, aborted, lock_waits, deadlock, in_guard) = {
         let mut g = sched.m.lock().unwrap();
         g.observer = None;
         (
@@ -383,8 +396,13 @@ pub fn run_program(p: &Program) -> TOutcome {
             g.steps,
             g.switches,
             g.aborted,
+            g.lock_waits,
+            g.deadlock,
+            g.in_guard_preemptions,
         )
     };
+    out.probes.insert("waited_for_a_map_guard", lock_waits);
+    out.probes.insert("preempted_inside_a_map_guard", in_guard);
     out.steps = steps;
     out.switches = switches;
     out.schedule = schedule;
@@ -428,6 +446,18 @@ pub fn run_program(p: &Program) -> TOutcome {
         }
     };
 
+    if deadlock {
+        for prop in ["C03", "C08"] {
+            viol(
+                prop,
+                "deadlock",
+                0,
+                "every live thread waits for a map guard held by another one".into(),
+                &mut out,
+            );
+        }
+        return out;
+    }
     if aborted {
         viol(
             "C06",
@@ -923,6 +953,7 @@ pub fn analyse(
         let mut outq: i128 = executed.get(id).cloned().unwrap_or(0) as i128;
         let mut handed = 0usize;
         let mut amended = false;
+        let mut unattributable = false;
         for (t, rs) in responses.iter().enumerate() {
             for (i, r) in rs.iter().enumerate() {
                 let Op::Upd(u) = &p.threads[t][i] else { continue };
@@ -939,11 +970,17 @@ pub fn analyse(
                             amended = true;
                             // pre-state: the last observation at a *found* map step of this op on this id
                             let mut old: Option<OrderSpec> = None;
+                            let peeks = obs.amend_old.get(&(t, i));
+                            let mut ordinal = 0usize;
                             for e in evs.get(id).map(|v| v.as_slice()).unwrap_or(&[]) {
-                                if e.tid == t && e.op == i && e.found && e.site != Site::MapInsert {
-                                    if let Some(Some(x)) = obs.amend_old.get(&(t, i, e.k as u64)) {
-                                        old = Some(*x);
+                                if e.tid == t && e.op == i && e.site != Site::MapInsert {
+                                    if e.found {
+                                        old = match peeks.and_then(|p| p.get(ordinal)) {
+                                            Some(Some(Some(x))) => Some(*x),
+                                            _ => None,
+                                        };
                                     }
+                                    ordinal += 1;
                                 }
                             }
                             match old {
@@ -953,7 +990,7 @@ pub fn analyse(
                                 }
                                 None => {
                                     // cannot attribute: skip the equation for this id
-                                    inq = i128::MIN;
+                                    unattributable = true;
                                 }
                             }
                         }
@@ -971,7 +1008,7 @@ pub fn analyse(
                 &mut a,
             );
         }
-        if inq == i128::MIN {
+        if unattributable {
             continue;
         }
         let rest = listed
@@ -1169,6 +1206,34 @@ pub fn analyse(
                                         ),
                                         &mut a,
                                     );
+                                }
+                            }
+                        }
+                        // "it does not trade": a matcher that reports a transaction against this
+                        // order must itself have taken it out of the book (ownership passes with
+                        // the map removal); one that never did traded an order it did not hold
+                        for (mt, mrs) in responses.iter().enumerate() {
+                            for (mi, mr) in mrs.iter().enumerate() {
+                                if let Resp::Matched { txs, .. } = mr {
+                                    if txs.iter().any(|x| x.0 == *id)
+                                        && !v.iter().any(|e| {
+                                            e.tid == mt
+                                                && e.op == mi
+                                                && e.site == Site::MapRemove
+                                                && e.found
+                                        })
+                                    {
+                                        push(
+                                            "C13",
+                                            "cancelled-order-traded",
+                                            i,
+                                            format!(
+                                                "thread {t} op {i} cancelled {} successfully, yet thread {mt} op {mi} reports a transaction against it without ever having taken it out of the book",
+                                                id.short()
+                                            ),
+                                            &mut a,
+                                        );
+                                    }
                                 }
                             }
                         }
